@@ -7,6 +7,7 @@ from .. import paths, waiters
 from ..core import FUNC, call_attr, calls_in, const, dotted, is_const, kwarg, norm, text, walk_local
 
 EXPLANATION = [
+    'C13.passkey-verbatim: Session.input_passkey stores the number the user entered unchanged (the parameter of its continuation is not reassigned before `self.passkey = passkey`).',
     "C13.declared-only-reads: Session.get_long_term_key (callable at any time of a session's life) reads none of the attributes Session only declares and assigns later (ltk, ea, eb, ...) directly.",
     'C13.distribution-order: every distribute_keys() call of smp.Session is guarded by the pairing role (self.is_responder / self.is_initiator), never by the link-layer role.',
     'C13.store-condition: Manager.on_pairing stores the keys under no other condition than the presence of a key store and of an identity address.',
@@ -919,7 +920,26 @@ def declared_only_reads(ctx):
         R.check(not reads, rule, f'{S}.{name}', f'reads none of the declared-only attributes {sorted(declared_only)} directly', f'{name} reads `self.{reads[0].attr if reads else ""}`, which exists only once the pairing has computed it: for a session created by any earlier SMP PDU the call raises AttributeError, Device.get_long_term_key never reaches the key store and the bonded link cannot be re-encrypted', p.loc(reads[0]) if reads else p.loc(fn))
 
 
+def passkey_verbatim(ctx):
+    """What the user typed is what is compared: the passkey handed to input_passkey's continuation is stored as it is (no
+    reduction modulo 10^6, masking or clamping - a wrong entry congruent to the right one would then be accepted)."""
+    R, p = ctx.r, ctx.p
+    rule = 'C13.passkey-verbatim'
+    fn = p.find(f'{S}.input_passkey')
+    if fn is None:
+        R.bad(rule, f'{S}.input_passkey', 'anchor missing')
+        return
+    inner = [x for x in ast.walk(fn) if isinstance(x, FUNC) and x is not fn and any(a.arg == 'passkey' for a in x.args.args)]
+    R.check(len(inner) == 1, rule, f'{S}.input_passkey | continuation', 'one continuation taking the passkey', f'{len(inner)} found', p.loc(fn))
+    for g in inner:
+        re_ = [s_ for s_ in walk_local(g) if isinstance(s_, (ast.Assign, ast.AugAssign)) and any(isinstance(t, ast.Name) and t.id == 'passkey' for t in (s_.targets if isinstance(s_, ast.Assign) else [s_.target]))]
+        st = [s_ for s_ in walk_local(g) if isinstance(s_, ast.Assign) and dotted(s_.targets[0]) == 'self.passkey']
+        ok = not re_ and len(st) == 1 and isinstance(st[0].value, ast.Name) and st[0].value.id == 'passkey'
+        R.check(ok, rule, f'{S}.input_passkey.{g.name}', 'self.passkey = passkey, unchanged', f'the typed passkey is changed before it is used (`{norm(re_[0])[:40] if re_ else norm(st[0])[:40] if st else "?"}`): a wrong entry that maps to the displayed value is accepted and keys marked authenticated are stored', p.loc(re_[0]) if re_ else p.loc(g))
+
+
 RULES = [
+    ('C13.passkey-verbatim', passkey_verbatim),
     ('C13.declared-only-reads', declared_only_reads),
     ('C13.distribution-order', distribution_order),
     ('C13.store-condition', store_condition),
